@@ -313,8 +313,27 @@ class BasicContiguousElement
                     return;
                 }
             }
-            destruct();
-            memory_ = other.memory_;
+            bool is_reallocating = !memory_ || memory_.size() < other.memory_.size();
+            if constexpr (AllocatorTraits::propagate_on_container_copy_assignment::value &&
+                          !AllocatorTraits::is_always_equal::value)
+            {
+                is_reallocating = is_reallocating || get_allocator() != other.get_allocator();
+            }
+            if (is_reallocating)
+            {
+                // allocate memory first because it might throw
+                StorageType new_memory{other.memory_.size(),
+                                       AllocatorTraits::propagate_on_container_copy_assignment::value
+                                           ? other.get_allocator()
+                                           : get_allocator()};
+                destruct();
+                memory_.reset(std::move(new_memory));
+            }
+            else
+            {
+                destruct();
+            }
+            memory_.propagate_on_container_copy_assignment(other.memory_);
             store_and_construct_reference_inplace(other.reference_, other.reference_.size_in_bytes());
         }
     }
